@@ -674,3 +674,81 @@ Theorem tree_child_box_contained ch b c bc :
 Proof.
   cbn [pt_abs_box]. intros H Hc Ebc. destruct (fold_expand_contains pt_abs_box ch None b H) as [_ Hcont]. exact (Hcont c bc Hc Ebc).
 Qed.
+
+(* ------------------------------------------------------------------ extension round 4: the forest (sub-trees) *)
+Lemma ts_concat_id_id : ts_eqb ts_identity (ts_concat ts_identity ts_identity) = true.
+Proof. vm_compute. reflexivity. Qed.
+
+(* abs_transform = product of the ancestors' transforms for every node of the main tree AND of every clip-path / mask /
+   pattern / feImage sub-tree at every nesting depth (relative to the sub-tree's root), outside the two known classes *)
+Theorem forest_product_guarded : forall n pabs,
+  xhas_use_ts n = false -> xhas_pushed n = false -> xproduct_ok pabs (xthread pabs n) = true.
+Proof.
+  fix IH 1. intros [subs|k nts pts subs ch|w ch] pabs Hu Hp.
+  - cbn [xthread xproduct_ok]. rewrite ts_eqb_refl. cbn [andb].
+    cbn [xhas_use_ts] in Hu. cbn [xhas_pushed] in Hp.
+    induction subs as [|c r IHr]; [reflexivity|].
+    cbn [existsb] in Hu, Hp. apply orb_false_iff in Hu. apply orb_false_iff in Hp. destruct Hu as [Hu1 Hu2]. destruct Hp as [Hp1 Hp2].
+    cbn [map forallb]. rewrite (IH c ts_identity Hu1 Hp1), (IHr Hu2 Hp2). reflexivity.
+  - cbn [xhas_use_ts] in Hu. cbn [xhas_pushed] in Hp.
+    apply orb_false_iff in Hu. destruct Hu as [Hu Huch]. apply orb_false_iff in Hu. destruct Hu as [Hk Husubs].
+    apply orb_false_iff in Hp. destruct Hp as [Hpsubs Hpch].
+    assert (Hl : forall (l : list xnode) a, existsb xhas_use_ts l = false -> existsb xhas_pushed l = false ->
+                 forallb (xproduct_ok a) (map (xthread a) l) = true).
+    { intros l a. induction l as [|c r IHr]; intros H1 H2; [reflexivity|].
+      cbn [existsb] in H1, H2. apply orb_false_iff in H1. apply orb_false_iff in H2. destruct H1 as [H1a H1b]. destruct H2 as [H2a H2b].
+      cbn [map forallb]. rewrite (IH c a H1a H2a), (IHr H1b H2b). reflexivity. }
+    cbn [xthread].
+    destruct k; cbn [xproduct_ok]; rewrite (Hl subs ts_identity Husubs Hpsubs), (Hl ch _ Huch Hpch), !andb_true_r.
+    + apply ts_eqb_refl.
+    + apply negb_false_iff in Hk. apply ts_eqb_spec in Hk. apply ts_eqb_of_eq. apply ts_concat_id_r. exact Hk.
+    + apply negb_false_iff in Hk. apply ts_eqb_spec in Hk. apply ts_eqb_of_eq.
+      apply ts_eq_sym. apply ts_concat_id_r. exact Hk.
+  - cbn [xhas_pushed] in Hp. discriminate Hp.
+Qed.
+
+(* paint-servers/pattern/patternContentUnits=objectBoundingBox.svg: the pattern content (one leaf) below the group pushed by
+   push_pattern_transform(root, scale(160, 70)) keeps the abs_transform identity *)
+Definition pushed_pattern_forest : xnode :=
+  xroot [] [XLeaf [xroot [] [XPushed (from_scale 160 70) [XLeaf []]]]].
+Theorem forest_pushed_refuted :
+  exists n, xhas_use_ts n = false /\ xhas_pushed n = true /\ xproduct_ok ts_identity (xthread ts_identity n) = false.
+Proof. exists pushed_pattern_forest. repeat split; vm_compute; reflexivity. Qed.
+
+(* the invariant of the forest is exactly the conjunction of the local checks over the flattened node list: what the `bbox`
+   correspondence evaluates group by group (leaf against its parent, group against parent * own transform, roots against
+   the identity) decides xproduct_ok of the whole dumped forest *)
+Lemma forallb_flat_map {A B} (f : B -> bool) (g : A -> list B) (l : list A) :
+  forallb f (flat_map g l) = forallb (fun x => forallb f (g x)) l.
+Proof. induction l as [|x r IH]; [reflexivity|]. cbn [flat_map forallb]. rewrite forallb_app, IH. reflexivity. Qed.
+
+Theorem forest_product_is_local : forall n pabs,
+  xproduct_ok pabs n = forallb (fun pm => bnode_local_ok (fst pm) (snd pm)) (bflat pabs n).
+Proof.
+  fix IH 1. intros [a subs|t a subs ch] pabs.
+  - cbn [xproduct_ok bflat forallb fst snd bnode_local_ok]. f_equal.
+    rewrite forallb_flat_map. induction subs as [|c r IHr]; [reflexivity|].
+    cbn [forallb]. rewrite IH, IHr. reflexivity.
+  - cbn [xproduct_ok bflat forallb fst snd bnode_local_ok]. rewrite <- andb_assoc. f_equal.
+    rewrite forallb_app, !forallb_flat_map. f_equal.
+    + induction subs as [|c r IHr]; [reflexivity|]. cbn [forallb]. rewrite IH, IHr. reflexivity.
+    + induction ch as [|c r IHr]; [reflexivity|]. cbn [forallb]. rewrite IH, IHr. reflexivity.
+Qed.
+
+(* dropping the sub-trees gives the main-tree model of `thread`: the forest invariant implies the main-tree invariant *)
+Theorem forest_implies_main : forall n pabs,
+  xhas_pushed n = false -> xproduct_ok pabs (xthread pabs n) = true -> product_ok pabs (thread pabs (xmain n)) = true.
+Proof.
+  fix IH 1. intros [subs|k nts pts subs ch|w ch] pabs Hp H.
+  - cbn [xthread xproduct_ok] in H. apply andb_prop in H. destruct H as [H _]. cbn. exact H.
+  - cbn [xhas_pushed] in Hp. apply orb_false_iff in Hp. destruct Hp as [_ Hpch].
+    cbn [xmain thread]. cbn [xthread] in H.
+    destruct k; cbn [xproduct_ok product_ok] in *;
+      apply andb_prop in H; destruct H as [H Hch]; apply andb_prop in H; destruct H as [H _]; rewrite H; cbn [andb];
+      rewrite map_map; clear H;
+      (induction ch as [|c r IHr]; [reflexivity|];
+       cbn [existsb] in Hpch; apply orb_false_iff in Hpch; destruct Hpch as [Hp1 Hp2];
+       cbn [map forallb] in *; apply andb_prop in Hch; destruct Hch as [Hc Hr];
+       rewrite (IH c _ Hp1 Hc), (IHr Hp2 Hr); reflexivity).
+  - cbn [xhas_pushed] in Hp. discriminate Hp.
+Qed.
